@@ -137,10 +137,10 @@ def handle : Handler := fun op inp impl => do
   | "step" =>
     let m := call kind cop w br f
     let holds ← (match jopt impl "panic" with
-      | some _ => pure [("C09.bg_no_panic", RV.Oracle.CtlBlueGreen.panicAllowed kind cop w br f)]
+      | some _ => pure [("C09.bg_no_panic", RV.Oracle.CtlBlueGreen.panicAllowed cop w br)]
       | none => do
         let o ← callOutOfJson impl
-        pure (RV.Oracle.CtlBlueGreen.stepOracles kind cop w br f orig o))
+        pure (RV.Oracle.CtlBlueGreen.stepOracles kind cop w br orig o))
     let rtag := match jopt impl "panic" with
       | some _ => ["res:panic"]
       | none => match jopt impl "res" with
@@ -153,15 +153,19 @@ def handle : Handler := fun op inp impl => do
       | .panic => mkObj [("panic", strJ "?")]
       | .val o1 =>
         match call kind cop o1.world br noFault, call kind cop w br noFault with
-        | .val o2, .val o3 => mkObj [("first", callOutToJson o1), ("second", callOutToJson o2), ("direct", callOutToJson o3)]
+        | .val o2, .val o3 =>
+          (match call kind cop o3.world br noFault with
+           | .val o4 => mkObj [("first", callOutToJson o1), ("second", callOutToJson o2), ("direct", callOutToJson o3),
+                               ("again", callOutToJson o4)]
+           | .panic => mkObj [("panic", strJ "?")])
         | _, _ => mkObj [("panic", strJ "?")]
     let holds ← (match jopt impl "panic" with
-      | some _ => pure [("C09.bg_no_panic", RV.Oracle.CtlBlueGreen.panicAllowed kind cop w br f)]
+      | some _ => pure [("C09.bg_no_panic", RV.Oracle.CtlBlueGreen.panicAllowed cop w br)]
       | none => do
-        let o1 ← callOutOfJson (← jget impl "first")
         let o2 ← callOutOfJson (← jget impl "second")
         let o3 ← callOutOfJson (← jget impl "direct")
-        pure (RV.Oracle.CtlBlueGreen.retryOracles kind cop w br f o1 o2 o3))
+        let o4 ← callOutOfJson (← jget impl "again")
+        pure (RV.Oracle.CtlBlueGreen.retryOracles cop br o2 o3 o4))
     return { model := model, holds := holds, tags := "retry" :: baseTags }
   | _ => .error s!"ctlbluegreen: unknown op {op}"
 
